@@ -699,6 +699,7 @@ def _plan_range(ctx: Ctx) -> None:
     vf = repo.func(M + "ttp.game_plan_space", "GamePlanSpace.validate")
     ev = make_evaluator(repo, vf, extra_call=py_calls)
     ev.int_transparent = True
+    ev.compose_rows = True
     gw = GuardWalk(ev)
     env = Env()
     env.vars["self"] = Poly.var("self")
@@ -709,9 +710,14 @@ def _plan_range(ctx: Ctx) -> None:
     detail = opaque_note(gw.exits, lambda e: len(e.loops) == 2) + \
         "no raising range check over all cells found"
     node: ast.AST = vf.node
+    import dataclasses as _dc
     for e in gw.exits:
         if e.kind != "raise" or len(e.loops) != 2 or is_opaque(e.cond):
             continue
+        if e.cond == ("true",) and not is_opaque(e.path):
+            # an unconditional raise behind `if <in range>: continue`: the
+            # condition is what is left of the path of this round
+            e = _dc.replace(e, cond=e.path)
         lv = [lp.target.id for lp in e.loops
               if isinstance(lp.target, ast.Name)]
         enum_form = False
